@@ -13,20 +13,20 @@ import (
 type langMenu struct {
 	rep      []string
 	internal []string
-	prod  []string
-	alpha []string
+	prod     []string
+	alpha    []string
 }
 
 var langs = map[string]langMenu{
 	"logql": {
 		rep: []string{
-			`{a="b"}`,                                     // plain log query, all in SQL
-			`{a="b"} |= "x" | json | c="d"`,               // breakpoint: internal pipeline (parser, label filter, limit)
-			`rate({a="b"}[1m])`,                           // metric, metrics_15s shortcut candidate
-			`sum by (a) (count_over_time({a="b"}[5s]))`,   // aggregation in SQL
-			`sum by (c) (rate({a="b"} | logfmt [5s]))`,    // internal aggregators
+			`{a="b"}`,                                              // plain log query, all in SQL
+			`{a="b"} |= "x" | json | c="d"`,                        // breakpoint: internal pipeline (parser, label filter, limit)
+			`rate({a="b"}[1m])`,                                    // metric, metrics_15s shortcut candidate
+			`sum by (a) (count_over_time({a="b"}[5s]))`,            // aggregation in SQL
+			`sum by (c) (rate({a="b"} | logfmt [5s]))`,             // internal aggregators
 			`avg_over_time({a="b"} | json | unwrap x [5s]) by (a)`, // internal unwrap aggregation
-			`absent_over_time({a="b"}[5s])`,               // BreakpointLra
+			`absent_over_time({a="b"}[5s])`,                        // BreakpointLra
 			`topk(2, rate({a="b"}[5s]))`,
 		},
 		prod: []string{
@@ -153,6 +153,13 @@ var langs = map[string]langMenu{
 		alpha: []string{"{", "}", "a", ":", `"`, "=", ",", "x", "1", " "},
 	},
 	"none": {rep: []string{""}},
+	// tail: the LogQL grammar again (rep + prod of logql are appended in init), no byte-level menu
+	"logql_tail": {},
+}
+
+func init() {
+	l := langs["logql"]
+	langs["logql_tail"] = langMenu{rep: l.rep[:2], prod: append(append([]string{}, l.rep[2:]...), l.prod...)}
 }
 
 // shortStrings returns every string of <= n symbols over the alphabet (1 + 10 + 100 + 1000 for n = 3).
